@@ -29,6 +29,10 @@ def c16_jobs(tier):
     maxn = 9 if tier == "quick" else 10
     for n in range(0, maxn + 1):
         js.append(job("ZZ_C16_TimeAccept", n=n))
+    for h in ["ZZ_C16_TimeRoundtrip", "ZZ_C16_TimePlus", "ZZ_C16_Range", "ZZ_C16_DurationRoundtrip"]:
+        js.append(job(h))
+    for n in range(0, (6 if tier == "quick" else 8) + 1):
+        js.append(job("ZZ_C16_DurationAccept", n=n))
     return js
 
 
